@@ -37,12 +37,21 @@ LineL1(r) == DiscAll(r.st) = {}
 NewDisc(r, pst) == IF Starts(r) THEN DiscAll(r.st) ELSE DiscAll(r.st) \ DiscAll(pst)
 IsNonLive(st, t) == t[3] = "extra" /\ st.e[t[2]].lv # "live"
 IsDynCand(st, t) == st.e[t[2]].k = "dyn" /\ st.e[t[2]].lv = "live"
+\* the filter negates a compound (and / or) sub-filter: the index-driven search of a re-evaluation
+\* subtracts that sub-filter's CANDIDATE set, which may be a superset of its matches (be/mod.rs filter2idl)
+RECURSIVE HasNotCompound(_)
+HasNotCompound(f) ==
+  CASE f.t = "not" -> f.s[1].t \in {"and", "or"} \/ HasNotCompound(f.s[1])
+    [] f.t \in {"and", "or"} -> \E i \in DOMAIN f.s : HasNotCompound(f.s[i])
+    [] OTHER -> FALSE
+IsNotCompound(st, t) == t[3] = "missing" /\ st.e[t[2]].lv = "live" /\ HasNotCompound(st.e[t[1]].f)
 Sig(r, pst) ==
   LET N == NewDisc(r, pst) IN
   IF N = {} THEN "persist"
   ELSE IF \A t \in N : IsNonLive(r.st, t) THEN "dyn-member-not-live"
   ELSE IF \A t \in N : IsNonLive(r.st, t) \/ IsDynCand(r.st, t) THEN "dyn-candidate-is-dyngroup"
-  ELSE LET t == CHOOSE u \in N : ~IsNonLive(r.st, u) /\ ~IsDynCand(r.st, u)
+  ELSE IF \A t \in N : IsNonLive(r.st, t) \/ IsDynCand(r.st, t) \/ IsNotCompound(r.st, t) THEN "dyn-missing not-of-compound"
+  ELSE LET t == CHOOSE u \in N : ~IsNonLive(r.st, u) /\ ~IsDynCand(r.st, u) /\ ~IsNotCompound(r.st, u)
        IN  "dyn-inexact " \o t[3] \o " kind=" \o r.st.e[t[2]].k
 
 \* ------------------------------------------ L2 on a line ------------------------------------------
